@@ -42,6 +42,8 @@ type Up4Gen struct {
 	ForceSessQer bool
 	OneFlow      bool
 	PeerBase     int // the generator's peers are p<PeerBase+1>..
+	MinFlows     int  // at least this many flows per session
+	AlwaysQer    bool // every flow has a QER of its own
 	SessionOnly  bool
 	EndMarkers   bool // FAR updates ask for end markers (SNDEM) most of the time
 }
@@ -131,7 +133,7 @@ func (g *Up4Gen) mkFlow() *pfcpx.Flow {
 			f.Src.Ports, f.Src.Lo, f.Src.Hi = "range", lo, lo+1+g.R.Intn(5000)
 
 			if g.Wide && g.R.Intn(2) == 0 {
-				f.Src.Lo, f.Src.Hi = []int{0, 1, 1024, 65534}[g.R.Intn(4)], 65535
+				f.Src.Lo, f.Src.Hi = []int{1, 2, 1024, 65534}[g.R.Intn(4)], 65535 // (0-65535 would be "any port": no filter)
 			}
 		}
 
@@ -152,6 +154,65 @@ func (g *Up4Gen) mkFlow() *pfcpx.Flow {
 		}
 	}
 }
+
+// SetDl updates every downlink FAR of the session to the given state: "fwd" (forward to gNB number gnb of the pool),
+// "buff" or "drop" (bounded-exhaustive histories: the outcome is chosen by the script, not drawn).
+func (g *Up4Gen) SetDl(s *usess, mode string, gnb int) bool {
+	var nf pfcpx.FAR
+
+	switch mode {
+	case "buff":
+		nf = pfcpx.FAR{Action: 0x0c, HasFP: true}
+	case "drop":
+		nf = pfcpx.FAR{Action: 1, HasFP: true}
+	default:
+		nf = pfcpx.FAR{Action: 2, HasFP: true, Dst: "access", OHC: true, PeerIP: g.gnbs[gnb%len(g.gnbs)], TEID: g.nextTeid()}
+	}
+
+	r := &SessReq{Hdr: s.up}
+
+	for _, f := range s.flows {
+		x := nf
+		x.ID = f.dlFar
+		r.UFAR = append(r.UFAR, x)
+	}
+
+	g.Stats["mod"]++
+
+	if accepted(g.W.Mod(s.peer, r)) {
+		s.fd = nf
+		g.Stats["mod_far_ok"]++
+
+		return true
+	}
+
+	return false
+}
+
+// DeleteAny / SetDlAny / ModifyAny accept the session as the interface value scripts hold.
+func (g *Up4Gen) DeleteAny(s interface{ Live() bool }) { g.Delete(s.(*usess)) }
+func (g *Up4Gen) SetDlAny(s interface{ Live() bool }, mode string, gnb int) bool {
+	if len(mode) >= 3 && mode[:3] == "fwd" {
+		mode = "fwd"
+	}
+
+	return g.SetDl(s.(*usess), mode, gnb)
+}
+func (g *Up4Gen) ModifyAny(s interface{ Live() bool }, kind int) { g.ModifyKind(s.(*usess), kind) }
+
+// MarkEnded tells the generator that the association of the peer (and with it its sessions) has ended.
+func (g *Up4Gen) MarkEnded(peer string) {
+	g.assoc[peer] = false
+
+	for _, s := range g.sess {
+		if s.peer == peer {
+			s.live = false
+		}
+	}
+}
+
+// Flows returns the number of flows of the session.
+func (s *usess) Flows() int { return len(s.flows) }
 
 // FreshGnbs replaces the pool of gNB addresses: sessions established from now on do not share tunnel peers with
 // the earlier ones (a FAR update then leaves the old peer without users).
@@ -263,7 +324,7 @@ func (g *Up4Gen) newFlow(s *usess, first bool) *uflow {
 		f.flow = g.R.Intn(len(g.flows))
 	}
 
-	if g.R.Intn(5) > 0 {
+	if g.R.Intn(5) > 0 || g.AlwaysQer {
 		f.qer = s.nextQer
 		s.nextQer++
 		f.q = g.appQer(f.qer)
@@ -366,6 +427,10 @@ func (g *Up4Gen) Establish(peer string) bool {
 	nf := 1 + g.R.Intn(3)
 	if g.OneFlow {
 		nf = 1
+	}
+
+	if nf < g.MinFlows {
+		nf = g.MinFlows
 	}
 
 	for i := 0; i < nf; i++ {
